@@ -16,6 +16,8 @@ use crate::{
 pub fn preprocess(src: &'static str) -> Result<Vec<Token>> {
     let mut res: Vec<Token> = Vec::new();
     let mut cur = Cursor::new(src);
+    // Words reserved by `.blkw` so far: no use expanding more than memory can hold
+    let mut reserved: usize = 0;
 
     loop {
         let dir = cur.advance_real()?;
@@ -39,21 +41,22 @@ pub fn preprocess(src: &'static str) -> Result<Vec<Token>> {
             TokenKind::Dir(DirKind::Blkw) => {
                 let val = cur.advance_real()?;
                 let span = dir.span.join(val.span);
-                match val.kind {
-                    TokenKind::Lit(LiteralKind::Hex(lit)) => {
-                        for _ in 0..lit {
-                            res.push(Token::nullbyte(span));
-                        }
-                    }
+                let count = match val.kind {
+                    TokenKind::Lit(LiteralKind::Hex(lit)) => lit,
                     TokenKind::Lit(LiteralKind::Dec(lit)) => {
                         if lit < 0 {
                             println!("{:?}", error::preproc_bad_lit(val.span, src, true));
                         }
-                        for _ in 0..lit as u16 {
-                            res.push(Token::nullbyte(span));
-                        }
+                        lit as u16
                     }
                     _ => return Err(error::preproc_bad_lit(val.span, src, false)),
+                };
+                reserved += count as usize;
+                if reserved > u16::MAX as usize {
+                    return Err(error::parse_too_long(span, src));
+                }
+                for _ in 0..count {
+                    res.push(Token::nullbyte(span));
                 }
             }
             // str into a sequence of bytes corresponding to a literal + null terminator
